@@ -12,6 +12,8 @@ Writes seeded/<id>/{patch.diff,demo.py,meta.json}; prints one summary line."""
 import json, os, re, shutil, subprocess, sys, time
 
 PID, n, patch, demo, notes = sys.argv[1:6]
+pn = sys.argv[6] if len(sys.argv) > 6 else n          # number of the patch in the agent's notes (patch1 / patch2)
+rnd = sys.argv[7] if len(sys.argv) > 7 else ''
 sid = f'{PID}-{n}'
 wt = f'/tmp/wt/{sid}'
 out = f'/verif/seeded/{sid}'
@@ -41,7 +43,7 @@ def sh(cmd, timeout=1800, **kw):
         return 124, 'timeout'
 
 
-meta = {'id': sid, 'property': PID, 'source': f'sub-agent seed {n} for {PID} (given only the property text and a scratch worktree)', 'ran': []}
+meta = {'id': sid, 'property': PID, 'source': f'sub-agent seed {n} for {PID}{(" (round " + rnd + ", patch" + pn + ")") if rnd else ""} (given only the property text and a scratch worktree)', 'ran': []}
 os.makedirs('/tmp/wt', exist_ok=True)
 sh(f'git -C /repo worktree remove --force {wt}')
 rc, o = sh(f'git -C /repo worktree add --detach {wt} HEAD')
@@ -106,7 +108,7 @@ try:
     meta['verdict'] = 'kept' if (demo_ok and tests_ok and meta['compiles']) else 'dropped: ' + ', '.join(x for x, ok in (('demo does not separate clean from patched', demo_ok), ('existing tests fail', tests_ok), ('does not compile', meta['compiles'])) if not ok)
     # what it needs to manifest: the agent's own words from notes.md (section of this patch)
     txt = open(notes).read()
-    m = re.search(r'(?is)(needs[^\n]*manifest.*?)(?:\n\s*\n|\Z)', txt.split(f'patch{n}', 1)[-1])
+    m = re.search(r'(?is)(needs[^\n]*manifest.*?)(?:\n\s*\n|\Z)', txt.split(f'patch{pn}', 1)[-1])
     meta['needs_to_manifest'] = re.sub(r'\s+', ' ', m.group(1)).strip()[:900] if m else 'see notes.md'
     if meta['verdict'] == 'kept':
         os.makedirs(out, exist_ok=True)
